@@ -109,6 +109,10 @@ def run(tier):
                 ops.append(st.gen_fwd_op(rng, t, inp=u, mode=rng.choice([0, 4, 1, 128]), cap=cap,
                                          argmask=rng.choice([31, 28, 2, 0, 16])))
         hist_cases.append(common.Case("c01-h%d" % hi, ["HOOK trace 1", "HOOK alloc 1"], ops, {"kind": "history"}))
+    # (d) wide generated tables: every opcode family with operands of unusual shapes (multi-cell indicators, separators
+    #     longer than what they mark, grouping/swap classes used from multipass rules, emphasis classes, compbrl, match ...),
+    #     inputs made of the rules' own strings, emphasis typeforms, capacities swept around the result length
+    cases += st.wide_cases(rng, 300 if tier == "quick" else 3000, per_table=8, back=False, exact=True, tag="c01w")
     calls = st.run_and_trace(exe, cases, timeout=300)
     # one process per history: the allocator state is per process
     calls += st.run_and_trace(exe, hist_cases, timeout=300, batch=1)
@@ -146,7 +150,7 @@ def run(tier):
     trace_bad = [k for k in calls if k.trace_ok is False]
     v.obligation("correspondence: Lean driver reproduces every recorded call (trace validation)", not trace_bad,
                  "; ".join("%s :: %s" % (k.op[:200], k.trace_detail[:600]) for k in trace_bad[:3]))
-    dist = {"calls": 0, "exact": 0, "long": 0, "history": 0, "faults": nfault, "alloc_requests_compared": nreq,
+    dist = {"calls": 0, "exact": 0, "long": 0, "history": 0, "wide": 0, "faults": nfault, "alloc_requests_compared": nreq,
             "contract_fail": 0, "modes": {}}
     for k in calls:
         if k.R is None:
